@@ -71,6 +71,9 @@ def apply(cfg, summaries=None, drop=()):
     return cfg
 
 
+_EXPANDING = []
+
+
 def shared(mod, labels):
     """contracts defined in another contract module, verified under THAT module's configuration (so a check can claim them without
     its own configuration interfering)"""
@@ -80,7 +83,20 @@ def shared(mod, labels):
         cfg.hooks.clear()
         mod.config(cfg)
     out = []
-    for c in mod.contracts():
+    name = mod.__name__
+    if name in _EXPANDING:
+        return []          # a sharing cycle (A claims from B, B claims from A): cut here; the outermost call checks that every label was found
+    _EXPANDING.append(name)
+    try:
+        pool = mod.contracts()
+    finally:
+        _EXPANDING.pop()
+    if not _EXPANDING:
+        have = [c.label for c in pool]
+        missing = [l for l in labels if not any(h == l or h.startswith(l + '[') for h in have)]
+        if missing:
+            raise KeyError('contracts %r not found in %s (claim them from the module that defines them)' % (missing, name))
+    for c in pool:
         if any(c.label == l or c.label.startswith(l + '[') for l in labels):
             inner = c.kw.get('config')
             def both(cfg, inner=inner):
